@@ -33,6 +33,7 @@ import Golib.Proof.C01ABA
 import Golib.Proof.C01ABA4
 import Golib.Proof.C01Wait
 import Golib.Proof.C01Heap
+import Golib.Proof.C01Trans
 
 namespace Golib.C01
 
@@ -915,5 +916,32 @@ example :
     let s := (run c (initAt c 7 [[.push 5], [.push 6], [.pop]]) [1, 1, 1, 1, 1, 0, 0, 0, 2, 2, 2]).1
     s.head = 8 ∧ s.tail = 9 ∧ s.slots.map (·.seq) = [8, 8] ∧
       cW s.threads 8 = 1 ∧ cR s.threads 7 = 1 := by decide
+
+/-! ### Regenerated tie (wave 8): `ringz/sync.go: roundupPowOfTwo` translated by `go2lean`
+
+Every theorem above is about a ring whose capacity is `2^k`, `1 ≤ k`.  `SyncRing.Init` obtains
+that capacity from `roundupPowOfTwo` whenever the request is not a power of two already;
+`Golib.Gen.Trans.C01.roundupPowOfTwo` is regenerated from the tree under verification on every
+run (`Golib/Gen/TransC01.lean`) and this theorem is re-checked against what the code says now. -/
+
+/-- TIE: for every request `1 ≤ x < 2^31` the translated `roundupPowOfTwo` returns — without a
+panic and within the fuel — a power of two `2^k` with `1 ≤ k ≤ 31` and `x < 2^k ≤ 2·x`: the
+capacity hypothesis (`cap = 2^k`, `1 ≤ k`) of the C01 theorems. -/
+theorem c01_trans_roundupPowOfTwo (x : BitVec 32) (h1 : 1 ≤ x.toNat) (h2 : x.toNat < 2 ^ 31) :
+    ∃ k, 1 ≤ k ∧ k ≤ 31 ∧
+      Golib.Gen.Trans.C01.roundupPowOfTwo x = .ok (BitVec.ofNat 32 (2 ^ k)) ∧
+      x.toNat < 2 ^ k ∧ 2 ^ k ≤ 2 * x.toNat := by
+  have hx0 : x.toNat ≠ 0 := by omega
+  have hlo := Nat.log2_self_le hx0
+  have hhi := @Nat.lt_log2_self x.toNat
+  generalize x.toNat.log2 = L at hlo hhi
+  have hL : L + 1 ≤ 31 := by
+    false_or_by_contra
+    have : 2 ^ 31 ≤ 2 ^ L := Nat.pow_le_pow_right (by decide) (by omega)
+    omega
+  exact ⟨L + 1, by omega, hL, trans_roundup_pow x L hlo hhi hL, hhi, by rw [Nat.pow_succ]; omega⟩
+
+/-- Non-vacuity: the request 5 is rounded to the capacity 8 = 2^3. -/
+example : Golib.Gen.Trans.C01.roundupPowOfTwo 5#32 = .ok 8#32 := by decide +kernel
 
 end Golib.C01
